@@ -6,6 +6,8 @@ code (mutated responses and raw byte mutations, with recover and a watchdog).
 -/
 import Genq.Model.Types
 import Genq.Model.Codec
+import Genq.Model.CodecSkel
+import Genq.Extracted.Codec
 namespace Genq.Types
 
 /-- **C19_bad_typename_is_error** — for every JSON value other than null and every list of
@@ -124,3 +126,11 @@ theorem C19_codec_null_special_list (impls : Impls) : decSpecial (.slice (.iface
 
 end Genq.Codec
 
+namespace Genq
+/-- **C19_codec_template_tie** — the templates (and FlattenedFields) extracted from /repo on this run are the ones
+    the Codec model was written from: an edit of the generated (un)marshaling code breaks this equality even when no
+    sampled response behaves differently. -/
+theorem C19_codec_template_tie :
+    Extracted.unmarshalTmpl = CodecSkel.unmarshalTmpl ∧
+    Extracted.unmarshalHelperTmpl = CodecSkel.unmarshalHelperTmpl := ⟨rfl, rfl⟩
+end Genq
